@@ -8,19 +8,36 @@ from .rules_c12 import guards_of, dominated_by_guard, throw_only, succ_of
 UNITS = ['src/Show.c', 'src/String.c', 'src/File.c', 'src/Num.c', 'src/Exception.c']
 
 
+def current_char_names(g, fmtp):
+    """canonical expressions that denote the current format character: `*fmt` itself and every local whose only definitions are `*fmt`
+    (a local that holds the character read once, e.g. `char spec = *fmt;`)"""
+    cur = ir.canon(('un', '*', fmtp))
+    defs = {}
+    for n in g.live():
+        if n['expr'] is None:
+            continue
+        for ev in util.expr_events(n['expr'], n):
+            if ev['t'] == 'write':
+                l = ir.top_nocast(ev['lhs'])
+                if l[0] == 'local':
+                    defs.setdefault(ir.canon(l), []).append(ir.canon(ev['rhs']) if ev.get('rhs') is not None and ev.get('op') in ('=', None) else None)
+    return {cur} | {l for l, rs in defs.items() if rs and all(r == cur for r in rs)}
+
+
 def letter_tests(g, fmtp):
     """cond nodes that test the current format character: -> [(node, set(letters), polarity_when_match)]"""
     out = []
-    cur = ir.canon(('un', '*', fmtp))
+    cur0 = ir.canon(('un', '*', fmtp))
+    curs = current_char_names(g, fmtp)
     for n in g.live():
         if n['kind'] != 'cond':
             continue
         c = ir.canon(n['expr'])
-        if c[0] == 'bin' and c[1] in ('==', '!=') and cur in (c[2], c[3]):
-            other = c[3] if c[2] == cur else c[2]
+        if c[0] == 'bin' and c[1] in ('==', '!=') and (c[2] in curs or c[3] in curs):
+            other = c[3] if c[2] in curs else c[2]
             if other[0] == 'int':
                 out.append((n, {chr(other[1])}, c[1] == '=='))
-        elif c[0] == 'call' and ir.callee_name(c) == 'strchr' and len(c[2]) == 2 and c[2][1] == cur and c[2][0][0] == 'str':
+        elif c[0] == 'call' and ir.callee_name(c) == 'strchr' and len(c[2]) == 2 and c[2][1] in curs and c[2][0][0] == 'str':
             out.append((n, set(c[2][0][1]), True))
     # the same skip written with the library idiom: fmt += strcspn(fmt, "set")
     for n in g.live():
